@@ -157,6 +157,9 @@ func Parse(input string) (*RootNode, error) {
 	if !p.current.Is(Section) && !p.current.Is(EOF) {
 		return nil, fmt.Errorf(fmt.Sprintf("parser err :%s", p.current.Value))
 	}
+	if p.err != nil {
+		return nil, fmt.Errorf("parser err :%s", p.err)
+	}
 	restcode := p.lex.input[p.current.EndAt:]
 	return &RootNode{
 			Declare: nodeDeclare,
